@@ -258,13 +258,14 @@ pub fn c01(ctx: &CheckCtx) -> CheckResult {
         let mode = Mode {
             replay_check: true,
             seed,
-            max_programs: if ctx.tier.is_thorough() { 3000 } else { 250 },
             max_execs: 50_000,
             ..Mode::default()
         };
         items.push(("rand", "quick", mode.clone()));
+        let want = if ctx.tier.is_thorough() { 3000 } else { 250 };
         for f in ALL_FAMILIES {
-            items.push((f, set, mode.clone()));
+            let n = family(f).len(set);
+            items.push((f, set, Mode { stride: (n / want).max(1), ..mode.clone() }));
         }
     }
     run_e2(
@@ -274,7 +275,7 @@ pub fn c01(ctx: &CheckCtx) -> CheckResult {
         &[VKind::Other("Replay".into()), VKind::Abort],
         if ctx.tier.is_thorough() { 1500.0 } else { 50.0 },
     );
-    res.cov("rule", "programs = generated programs of the 7 primitive families plus a shuttle::rand family (first 250 per family in the quick tier, simplest first); evaluations = every execution of each program's complete choice tree under the explorer-scheduler, whose data draws come from the seeded stream a built-in scheduler would use; for each execution: (1) the schedule recorded by the runtime (CurrentSchedule) must equal the independently reconstructed sequence of answered scheduler calls, (2) its printed form is handed to ReplayScheduler::new_from_encoded under a recording wrapper and must reproduce every scheduler call (offered ids, current, yielding, chosen), every draw, every log entry of the body (results of all operations) and the same ending (pass / same panic / same deadlock report); (3) the same tree is explored again under UncontrolledNondeterminismCheckScheduler, which must never complain; distinct_nontrivial = programs with >= 2 distinct (log, ending) outcomes; 'traces_validated' = executions replayed identically");
+    res.cov("rule", "programs = generated programs of the 7 primitive families plus a shuttle::rand family (every k-th program of each family's set, about 250 per family in the quick tier); evaluations = every execution of each program's complete choice tree under the explorer-scheduler, whose data draws come from the seeded stream a built-in scheduler would use; for each execution: (1) the schedule recorded by the runtime (CurrentSchedule) must equal the independently reconstructed sequence of answered scheduler calls, (2) its printed form is handed to ReplayScheduler::new_from_encoded under a recording wrapper and must reproduce every scheduler call (offered ids, current, yielding, chosen), every draw, every log entry of the body (results of all operations) and the same ending (pass / same panic / same deadlock report); (3) the same tree is explored again under UncontrolledNondeterminismCheckScheduler, which must never complain; distinct_nontrivial = programs with >= 2 distinct (log, ending) outcomes; 'traces_validated' = executions replayed identically");
     res.assumptions.push("replay of random / PCT / URW / DFS / round-robin built-in schedulers over the seed interval is part of C09-C11 (same seed => same run; reported seed reproduces the iteration)".into());
     res
 }
@@ -310,19 +311,30 @@ pub fn c14(ctx: &CheckCtx) -> CheckResult {
 pub fn c15(ctx: &CheckCtx) -> CheckResult {
     let mut res = CheckResult::new("exploration");
     let set = if ctx.tier.is_thorough() { "thorough" } else { "quick" };
-    let mode = Mode {
-        clock_check: true,
-        clock_all_targets: ctx.tier.is_thorough(),
-        max_programs: if ctx.tier.is_thorough() { 4000 } else { 300 },
-        max_execs: 50_000,
-        ..Mode::default()
-    };
-    let items: Vec<(&str, &str, Mode)> = ["lock", "atomic", "sync", "mpsc", "thread", "sem", "async"].iter().map(|f| (*f, set, mode.clone())).collect();
+    let want = if ctx.tier.is_thorough() { 6000 } else { 450 };
+    let items: Vec<(&str, &str, Mode)> = ["lock", "atomic", "sync", "mpsc", "thread", "sem", "async"]
+        .iter()
+        .map(|f| {
+            let n = family(f).len(set);
+            (
+                *f,
+                set,
+                Mode {
+                    clock_check: true,
+                    clock_all_targets: ctx.tier.is_thorough(),
+                    // every k-th program (the sets are sorted simplest first): all sizes are sampled
+                    stride: (n / want).max(1),
+                    max_execs: 50_000,
+                    ..Mode::default()
+                },
+            )
+        })
+        .collect();
     run_e2(ctx, &mut res, &items, &[VKind::Other("Clock".into()), VKind::Abort], if ctx.tier.is_thorough() { 1500.0 } else { 50.0 });
     if let Some(v) = res.coverage.remove("scheduling_decisions") {
         res.coverage.insert("must_edges_checked".into(), v);
     }
-    res.cov("rule", "every execution of the complete choice tree of the generated programs (first 300 per family in the quick tier) with shuttle::current::clock() sampled after every operation; HB_must = program order + spawn->child start + child end->join + per-primitive API-level rules (unlock->later lock, write-unlock->later read/write lock, read-unlock->later write lock, atomic write->later read/RMW of the variable, send->its receive, k-th receive->(k+c)-th send on a bounded channel, notify_all->the waits it released, barrier: before-arrival->every departure of the generation, winning call_once->later call_once, flag store->later flag load): the later clock must dominate the earlier one; HB_may = closure of program order, spawn/join and 'any two operations on a common object, earlier->later': two tasks that have each advanced their own clock component may only be clock-ordered if such a chain exists; per-task clocks never decrease; target-clock replay: ReplayScheduler restricted to the clock of a thread's last operation (main only in quick, every thread in thorough) must not fail and must reproduce every operation in the HB_must-past of the target with the same result; traces_validated = target-clock replays");
+    res.cov("rule", "every execution of the complete choice tree of the generated programs (every k-th program of each family's set, about 450 per family in the quick tier) with shuttle::current::clock() sampled after every operation; HB_must = program order + spawn->child start + child end->join + per-primitive API-level rules (unlock->later lock, write-unlock->later read/write lock, read-unlock->later write lock, atomic write->later read/RMW of the variable, send->its receive, k-th receive->(k+c)-th send on a bounded channel, notify_all->the waits it released, barrier: before-arrival->every departure of the generation, winning call_once->later call_once, flag store->later flag load): the later clock must dominate the earlier one; HB_may = closure of program order, spawn/join and 'any two operations on a common object, earlier->later': two tasks that have each advanced their own clock component may only be clock-ordered if such a chain exists; per-task clocks never decrease; target-clock replay: ReplayScheduler restricted to the clock of a thread's last operation (main only in quick, every thread in thorough) must not fail and must reproduce every operation in the HB_must-past of the target with the same result; traces_validated = target-clock replays");
     res.assumptions.push("documented over-approximations (waiter clock frozen at enqueue, last_acquire on failed tries) only add edges, hence the two-relation form".into());
     res
 }
